@@ -24,7 +24,7 @@ RULE = (
     "equal per accepting path; (c) symbolic frame size / excursions for the dimension and depth functions"
 )
 BOUNDS = {
-    "quick": "(a) 7 symmetric + 8 seeded asymmetric wavelet pairs, depth sum <= 2, luma up to 5x4, chroma formats 4:4:4/4:2:2/4:2:0, bit depths 1, 8, 10, 16; (b) 20 block orders; (c) frame sizes any integer >= 1, excursions 0..2^17",
+    "quick": "(a) 7 symmetric + 8 seeded asymmetric wavelet pairs, depth sum <= 2, luma up to 5x4, chroma formats 4:4:4/4:2:2/4:2:0, bit depths 1, 8, 10, 16; (b) 20 block orders; (c) frame sizes any integer >= 1, excursions 0..2^17 symbolic plus a concrete probe at 2^k-1, 2^k, 2^k+1 for k <= 64",
     "thorough": "(a) all 49 wavelet pairs, depth sum <= 3, luma up to 8x6; (b) 20 block orders; (c) as quick",
 }
 OUTSIDE = "component sizes/depths above the bound in (a); payload bytes are concrete in (b)"
@@ -196,6 +196,9 @@ def build(task):
         return hb
 
     def hd(ctx):
+        bad = _depth_probe(VP, State)
+        if bad:
+            ctx.fail("depth-probe", bad[:3])
         fw = ctx.sym_int("fw", 1, None, default=37)
         fh = ctx.sym_int("fh", 1, None, default=22)
         fmt = ctx.concretize(ctx.sym_int("fmt", 0, 2))
@@ -225,6 +228,20 @@ def build(task):
         return "fmt%d pcm%d" % (fmt, pcm)
 
     return hd
+
+
+def _depth_probe(VP, State):
+    """Concrete probe beyond the symbolic bound: video_depth at every excursion 2^k - 1, 2^k, 2^k + 1 for k <= 64."""
+    bad = []
+    for k in range(0, 65):
+        for exc in ((1 << k) - 1, 1 << k, (1 << k) + 1):
+            st = State()
+            VP.video_depth(st, {"luma_excursion": exc, "color_diff_excursion": exc})
+            for key in ("luma_depth", "color_diff_depth"):
+                d = st[key]
+                if not (exc + 1 <= (1 << d) and (d == 0 or exc + 1 > (1 << (d - 1)))):
+                    bad.append([key, exc, d])
+    return bad
 
 
 def _golomb(v):
@@ -380,6 +397,9 @@ def replay(task, label, inputs, extra):
     from vc2_conformance.pseudocode import video_parameters as VP
     from vc2_conformance.pseudocode.state import State
 
+    if label == "depth-probe":
+        pb = _depth_probe(VP, State)
+        return {"reproduced": bool(pb), "key": "C09:dims:depth-probe", "detail": "video_depth gives (component, excursion, depth) %r: the depth must be the number of bits of the excursion" % (pb[:4],)}
     fw, fh, fmt, pcm, le, ce = (inputs.get(k, d) for k, d in (("fw", 1), ("fh", 1), ("fmt", 0), ("pcm", 0), ("le", 0), ("ce", 0)))
     st = State(picture_coding_mode=pcm)
     VP.picture_dimensions(st, {"frame_width": fw, "frame_height": fh, "color_diff_format_index": fmt})
